@@ -212,6 +212,22 @@ class VLoop(asyncio.AbstractEventLoop):
                 except Exception as exc:  # asyncio logs and goes on
                     self.errors.append({"exception": exc, "handle": h})
 
+    def run_one_iteration(self):
+        """Exactly one loop iteration (asyncio's _run_once): move due timers, run the
+        callbacks that were ready at the start - not the ones they schedule."""
+        self._move_due()
+        n = len(self.ready)
+        for _ in range(n):
+            h = self.ready.popleft()
+            if h._cancelled:
+                continue
+            self.ncallbacks += 1
+            try:
+                h._run()
+            except Exception as exc:
+                self.errors.append({"exception": exc, "handle": h})
+        return n
+
     def next_deadline(self):
         ts = self.live_timers()
         if not ts:
